@@ -48,6 +48,9 @@ def _row_ok(v: ast.AST) -> bool:
         return all(_row_ok(x) for x in v.elts)
     if isinstance(v, ast.UnaryOp) and isinstance(v.op, ast.USub):
         return _row_ok(v.operand)
+    if isinstance(v, ast.Lambda):
+        a = v.args
+        return not (a.vararg or a.kwarg or a.kwonlyargs or a.defaults or a.posonlyargs) and len(ast.unparse(v)) < 200
     return False
 
 
@@ -225,6 +228,12 @@ class _Expr(ast.NodeTransformer):
 
     def visit_Compare(self, n: ast.Compare):
         self.generic_visit(n)
+        if len(n.ops) == 1 and isinstance(n.ops[0], (ast.Is, ast.IsNot)) and isinstance(n.comparators[0], ast.Constant) and n.comparators[0].value is None \
+                and isinstance(n.left, (ast.Lambda, ast.Constant, ast.Name)):
+            nn = self._never_none_value(n.left)
+            if nn is not None:
+                self.changed = True
+                return ast.copy_location(ast.Constant(value=(not nn) if isinstance(n.ops[0], ast.Is) else nn), n)
         ci = self._class_identity(n)
         if ci is not None:
             self.changed = True
@@ -305,6 +314,21 @@ class _Expr(ast.NodeTransformer):
                 return ast.copy_location(ast.List(elts=elts, ctx=ast.Load()), n)
         return n
 
+    def _never_none_value(self, e: ast.AST) -> Optional[bool]:
+        """True: the expression is certainly not None (a lambda, a builtin / class / function name, a non-None constant);
+        False: it is None; None: unknown."""
+        if isinstance(e, ast.Lambda):
+            return True
+        if isinstance(e, ast.Constant):
+            return e.value is not None
+        if isinstance(e, ast.Name) and not self.t._is_local(e.id):
+            import builtins
+            if hasattr(builtins, e.id) and e.id not in ("None",):
+                return True
+            if self.t.model.resolve_class(self.t.f.module, e) is not None:
+                return True
+        return None
+
     def visit_IfExp(self, n: ast.IfExp):
         self.generic_visit(n)
         if isinstance(n.test, ast.Constant) and isinstance(n.test.value, bool):
@@ -361,6 +385,13 @@ class _Expr(ast.NodeTransformer):
                     star = n.args[-1].value
                     extra = [ast.Subscript(value=copy.deepcopy(star), slice=ast.Constant(value=i), ctx=ast.Load()) for i in range(k)]
                     return ast.copy_location(ast.Call(func=f, args=list(n.args[:-1]) + extra, keywords=[]), n)
+        # (lambda a, b: E)(x, y)  ->  E[a := x, b := y]      (plain arguments only)
+        if isinstance(f, ast.Lambda) and not n.keywords and len(n.args) == len(f.args.args) and not any(isinstance(a, ast.Starred) for a in n.args) \
+                and all(isinstance(a, (ast.Name, ast.Constant, ast.Attribute)) for a in n.args) \
+                and not (f.args.vararg or f.args.kwarg or f.args.kwonlyargs or f.args.defaults or f.args.posonlyargs):
+            self.changed = True
+            env = {p.arg: a for p, a in zip(f.args.args, n.args)}
+            return ast.copy_location(self.visit(_SubNames(env).visit(copy.deepcopy(f.body))), n)
         # operator.add(a, b) -> a + b  (and the other functions of the operator module that are spellings of an operator)
         if isinstance(f, ast.Attribute) and isinstance(f.value, ast.Name) and f.value.id == "operator" and not n.keywords \
                 and not self.t._is_local("operator"):
@@ -541,8 +572,17 @@ class _Stmt:
                     d = self.t.f.module.assigns.get(d.id, d)
                 if _row_ok(d) and not isinstance(d, ast.Name):
                     look = (s.value.func.value, s.value.args[0], d)
+            elif isinstance(s, ast.Assign) and len(s.targets) == 1 and isinstance(s.value, ast.Call) and isinstance(s.value.func, ast.Attribute) \
+                    and s.value.func.attr == "get" and len(s.value.args) == 1 and not s.value.keywords and _simple_key(s.value.args[0]):
+                look = (s.value.func.value, s.value.args[0], ast.Constant(value=None))
             if look is not None and not isinstance(s.targets[0], (ast.Tuple, ast.List)):
-                look = None  # a scalar lookup becomes a conditional expression (expression pass), not a duplicated block
+                # a scalar lookup becomes a conditional expression (expression pass), not a duplicated block -- unless the value is
+                # *called* afterwards (dict dispatch): then every row continues with its own callee
+                nm = s.targets[0].id if isinstance(s.targets[0], ast.Name) else None
+                called = nm is not None and any(isinstance(c, ast.Call) and isinstance(c.func, ast.Name) and c.func.id == nm
+                                                for x in stmts[i + 1:] for c in ast.walk(x))
+                if not called or len(stmts[i + 1:]) > 4:
+                    look = None
             if look is not None:
                 rows = self.t.rows(look[0])
                 rest = stmts[i + 1:]
@@ -617,6 +657,15 @@ class _Stmt:
                         continue
             # recurse into compound statements
             s = self.stmt(s)
+            # if <constant>: A else: B   ->  A / B       (left behind by an expanded table row)
+            if isinstance(s, ast.If) and isinstance(s.test, ast.Constant) and isinstance(s.test.value, bool):
+                self.changed = True
+                chosen = s.body if s.test.value else s.orelse
+                out.extend(chosen)
+                i += 1
+                if chosen and isinstance(chosen[-1], (ast.Return, ast.Raise, ast.Continue, ast.Break)):
+                    return out  # what follows is unreachable
+                continue
             # if c: X = A else: X = B   ->  X = A if c else B      (one plain local on both sides, nothing else in the arms)
             if isinstance(s, ast.If) and len(s.body) == 1 and len(s.orelse) == 1 and isinstance(s.body[0], ast.Assign) \
                     and isinstance(s.orelse[0], ast.Assign) and len(s.body[0].targets) == 1 and len(s.orelse[0].targets) == 1 \
@@ -798,7 +847,7 @@ def canonicalise(model, f) -> bool:
     # the expression pass may have produced `if k == .. or k == ..:` around a chain: fold it
     if ex.changed:
         st2 = _Stmt(tables)
-        node.body = [st2.stmt(s) for s in node.body]
+        node.body = st2.block(node.body)
         st.changed = st.changed or st2.changed
     if not (ex.changed or st.changed):
         return False
